@@ -32,6 +32,10 @@ pub struct Case {
     pub xf: Xf,
     /// prepare the concrete type (true) or the Geometry enum (false)
     pub concrete: bool,
+    /// wrap P (bit 0) and / or the partners (bit 1) into a mixed-dimension GeometryCollection together with
+    /// an extra point: outside the C01 oracle's domain, compared differentially (prepared vs plain) only
+    #[serde(default)]
+    pub mix: Option<(u8, i8, i8)>,
     #[serde(skip)]
     pub trusted: bool,
 }
@@ -42,6 +46,8 @@ fn run_history<PG>(prep: &PG, c: &Case, gp: &Geometry<f64>, gqs: &[Geometry<f64>
 where
     PG: Relate<f64> + Clone,
 {
+    let p_dom = in_relate_domain(&c.p);
+    let q_dom: Vec<bool> = c.partners.iter().map(in_relate_domain).collect();
     let mut seen: HashMap<(usize, u8), Matrix> = HashMap::new();
     let mut uses_first = false;
     let mut uses_second = false;
@@ -100,7 +106,7 @@ where
                 );
             }
             obs.cmp();
-            if got != want {
+            if got != want && p_dom && (mode == 4 || q_dom[qi]) {
                 obs.fail(
                     format!("prepared-relate|mode{mode}|differs-from-oracle"),
                     format!("prepared {} vs true {} (plain {}); {}", got.to_string9(), want.to_string9(), plain.to_string9(), ctx()),
@@ -130,6 +136,23 @@ where
     obs.label(format!("partners-intersecting:{}", intersecting_partners.len().min(3)));
 }
 
+/// wrap operands into mixed-dimension collections with an extra point (see `Case::mix`)
+fn apply_mix(c: &mut Case) {
+    if let Some((which, x, y)) = c.mix {
+        let pt = G::Point((x as i64, y as i64));
+        if which & 1 == 1 && !matches!(c.p, G::Coll(_)) {
+            c.p = G::Coll(vec![c.p.clone(), pt.clone()]);
+        }
+        if which & 2 == 2 {
+            for q in c.partners.iter_mut() {
+                if !matches!(q, G::Coll(_)) {
+                    *q = G::Coll(vec![pt.clone(), q.clone()]);
+                }
+            }
+        }
+    }
+}
+
 impl Property for C17 {
     type Case = Case;
     const ID: &'static str = "C17";
@@ -141,8 +164,13 @@ impl Property for C17 {
             proptest::collection::vec((any::<u8>(), 0u8..7, 0u8..3).prop_map(|(partner, mode, reps)| Step { partner, mode, reps }), 1..=maxs),
             xf_strategy(),
             any::<bool>(),
+            proptest::option::weighted(0.2, (1u8..4, -3i8..16, -3i8..16)),
         )
-            .prop_map(|(Scene { a, partners }, steps, xf, concrete)| Case { p: a, partners, steps, xf, concrete, trusted: true })
+            .prop_map(|(Scene { a, partners }, steps, xf, concrete, mix)| {
+                let mut c = Case { p: a, partners, steps, xf, concrete, mix, trusted: true };
+                apply_mix(&mut c);
+                c
+            })
             .boxed()
     }
     fn quota(tier: Tier) -> u64 {
@@ -161,7 +189,7 @@ impl Property for C17 {
         vec!["single-threaded use of one PreparedGeometry (it holds Rc state and is not Send)".into()]
     }
     fn must_hit() -> Vec<&'static str> {
-        vec!["both-positions", "partners-intersecting:2"]
+        vec!["both-positions", "partners-intersecting:2", "mixed-dimension-collection"]
     }
     fn show(c: &Case) -> Value {
         json!({"p": wkt(&c.p), "partners": c.partners.iter().map(wkt).collect::<Vec<_>>(), "steps": c.steps, "xf": c.xf, "concrete": c.concrete})
@@ -171,9 +199,18 @@ impl Property for C17 {
             obs.label("skipped:empty-history");
             return;
         }
-        if !c.trusted && !(in_relate_domain(&c.p) && c.partners.iter().all(in_relate_domain)) {
+        if c.mix.is_none() && !c.trusted && !(in_relate_domain(&c.p) && c.partners.iter().all(in_relate_domain)) {
             obs.label("skipped:out-of-domain");
             return;
+        }
+        if c.mix.is_some() {
+            // replayed / fuzzed cases: members must still be individually valid
+            let member_ok = |g: &G| match g { G::Coll(v) => v.iter().all(in_relate_domain), g => in_relate_domain(g) };
+            if !c.trusted && !(member_ok(&c.p) && c.partners.iter().all(member_ok)) {
+                obs.label("skipped:out-of-domain");
+                return;
+            }
+            obs.label("mixed-dimension-collection");
         }
         obs.label(format!("prepared-type:{}", c.p.type_name()));
         let gp = to_geo(&c.p, &c.xf);
